@@ -14,7 +14,7 @@ correlated branches).  Valid combinations at the normal exit of a public mutator
 import ast
 import re
 
-from .core import AnalysisError, norm, short, walk_local
+from .core import AnalysisError, norm, short, walk_local, parent_chain
 from .cfg import forward, Branch, node_exprs
 from .effects import root_and_depth
 from .kinds import RELATIONS
@@ -155,6 +155,57 @@ def apply_op(cur, op):
     return "x"
 
 
+BP_NAMES = sorted({r.efield.lstrip("_") for r in RELATIONS} | {"wire"})
+
+
+def _mk(name, l, r):
+    """the atom _atoms() would build for `l <name> r`"""
+    if name in ("is", "isnot", "eq", "ne"):
+        if r == "None" and name in ("eq", "ne"):
+            name = "is" if name == "eq" else "isnot"
+        if l == "None" or (l > r and r != "None"):
+            l, r = r, l
+        if l == "None":
+            l, r = r, l
+    return atom(name, l, r)
+
+
+def _parse_atom(a):
+    m = re.match(r"(is|isnot|eq|ne)\((.*)\)$", a)
+    if not m:
+        return None
+    body = m.group(2)
+    depth = 0
+    for i, ch in enumerate(body):
+        if ch in "([":
+            depth += 1
+        elif ch in ")]":
+            depth -= 1
+        elif ch == "," and depth == 0:
+            return m.group(1), body[:i], body[i + 1:]
+    return None
+
+
+def callee_bp_guards(fe, params):
+    """own checks of a function that constrain the back pointer of one of its parameters:
+    [(op, param index, bp name, other side: 'self' | 'None')] — the conjunctive part of each assert"""
+    out = []
+    for evs in fe.by_node.values():
+        for ev in evs:
+            if ev.kind != "check" or ev.cond is None:
+                continue
+            for a in facts_of(ev.cond, True):
+                pa = _parse_atom(a)
+                if pa is None:
+                    continue
+                op, l, r = pa
+                for x, y in ((l, r), (r, l)):
+                    m = re.match(r"(\w+)\._?(\w+)$", x)
+                    if m and m.group(1) in params[1:] and m.group(2) in BP_NAMES and y in ("self", "None"):
+                        out.append((op, params.index(m.group(1)), m.group(2), y, short(ev.cond, 50)))
+    return out
+
+
 class RelEvent:
     __slots__ = ("rel", "side", "op", "elem", "cont", "ev", "via", "origin_public")
 
@@ -172,6 +223,7 @@ class Pairing:
         self.funcs = {f.key: f for f in M.ir_funcs()}
         self.summary = {}  # func key -> {"rel": set of rel-tuples at exit, "events": [(rel, side, op, elem_param, cont_param)]}
         self.results = {}  # func key -> dict(worlds at exit, rel events with facts)
+        self._cache = {}
         self._run()
 
     # -- relation events of a write ---------------------------------------------------------
@@ -225,6 +277,66 @@ class Pairing:
                 op = "+"
             return [RelEvent(i, "b", op, norm(ev.recv), norm(v) if v is not None else None, ev)]
 
+    def _unentailed(self, fe, params, is_init, ev, t, amap, facts, node):
+        """guards of the callee `t` on the back pointer of a parameter that the caller's facts at this call do not imply"""
+        M = self.M
+        tfe = M.events(t)
+        key = "guards:" + t.key
+        gs = self._cache.get(key)
+        if gs is None:
+            gs = self._cache[key] = callee_bp_guards(tfe, t.params)
+        out = []
+        for op, pi, bp, other, text in gs:
+            arg = amap.get(pi)
+            if arg is None:
+                continue
+            root, depth = root_and_depth(arg)
+            if M.rootspec(fe, params, root, depth, is_init) == "fresh":
+                continue
+            a = norm(arg)
+            recv = norm(amap[0]) if amap.get(0) is not None else "self"
+            o = recv if other == "self" else "None"
+            want = {_mk(op, "%s.%s" % (a, bp), o)}
+            if op in ("is", "eq"):
+                want |= {_mk("is", "%s.%s" % (a, bp), o), _mk("eq", "%s.%s" % (a, bp), o)}
+            if op in ("isnot", "ne"):
+                want |= {_mk("isnot", "%s.%s" % (a, bp), o), _mk("ne", "%s.%s" % (a, bp), o)}
+            if want & facts:
+                continue
+            # the receiver was read from the argument's own back pointer: `w = p.wire ... w.disconnect_pin(p)`
+            if other == "self" and op in ("is", "eq") and (atom("def", recv, "%s.%s" % (a, bp)) in facts or atom("def", recv, "%s._%s" % (a, bp)) in facts):
+                continue
+            # a universally quantified assert over the collection this call iterates: all(<...x.bp == self...> for x in S)
+            ok = False
+            for fct in facts:
+                if not fct.startswith("truthy(all("):
+                    continue
+                try:
+                    e = ast.parse(fct[len("truthy("):-1], mode="eval").body
+                except SyntaxError:
+                    continue
+                if not (isinstance(e, ast.Call) and e.args and isinstance(e.args[0], (ast.GeneratorExp, ast.ListComp)) and len(e.args[0].generators) == 1):
+                    continue
+                g = e.args[0].generators[0]
+                S, v = norm(g.iter), norm(g.target)
+                loop = None
+                for p_ in parent_chain(ev.node):
+                    if isinstance(p_, ast.For) and norm(p_.iter) == S and norm(p_.target) == a:
+                        loop = p_
+                if loop is None:
+                    continue
+                inst = subst_name(facts_of(e.args[0].elt, True), v, a) | {x for x in facts_of(e.args[0].elt, True) if not _mentions(x, v)}
+                renorm = set()
+                for x in inst:
+                    pa = _parse_atom(x)
+                    renorm.add(_mk(*pa) if pa else x)
+                if want & renorm:
+                    ok = True
+            if ok:
+                continue
+            out.append("%s requires `%s` (%s.%s %s %s)" % (t.qualname, text, a, bp, {"is": "is", "eq": "==", "isnot": "is not", "ne": "!="}[op], o))
+        return out
+
     # -- driver --------------------------------------------------------------------------------
     def _run(self):
         for k in self.funcs:
@@ -257,6 +369,7 @@ class Pairing:
         recorded = []  # (RelEvent, facts, tokens) at that point
         refusals = []  # (check / refusable notify event, relation state) reached with a relation half-updated
         refusal_tokens = []  # (refusal event, shared writes already performed on that path)
+        cascade = []  # (call event, callee, unentailed guard text, shared writes already performed)
         sum_events = set()
         from .typestate import is_public_entry as _pub
         pub = _pub(f)
@@ -316,6 +429,12 @@ class Pairing:
                         if cs is None:
                             continue
                         amap = M.argmap(ev, t)
+                        if record is not None and not ev.ctor and not is_init and t.key in self.funcs:
+                            for (fa, rl, tk) in outs:
+                                dirty = [x for x in tk if x.startswith(("W:", "V:"))]
+                                if dirty:
+                                    for miss in self._unentailed(fe, params, is_init, ev, t, amap, fa, n):
+                                        cascade.append((ev, t, miss, dirty))
                         for (ri, side, op, ep, cp, opub) in cs["events"]:
                             spec_e = norm(amap[ep]) if ep in amap and amap[ep] is not None else None
                             spec_c = norm(amap[cp]) if cp in amap and amap[cp] is not None else None
@@ -420,7 +539,7 @@ class Pairing:
                 merged[k] = (merged[k][0], merged[k][1], merged[k][2] & tk)
             else:
                 merged[k] = (re_, [fa], tk)
-        self.results[f.key] = {"exit": ex, "events": list(merged.values()), "state": state, "fe": fe, "refusals": refusals, "refusal_tokens": refusal_tokens}
+        self.results[f.key] = {"exit": ex, "events": list(merged.values()), "state": state, "fe": fe, "refusals": refusals, "refusal_tokens": refusal_tokens, "cascade": cascade}
 
 
 def expand_defs(text, facts, depth=3):
